@@ -92,6 +92,15 @@ CHECKS = {
              "cancel-store / Parallelise histories are validated by trace specifications.",
         note="Trusted: TLC, wall-clock scripting with 25 ms spacing, a 4 ms (+ measured scheduling latency) margin inside which either order of deadline and completion is accepted.",
         technique="TLA+ specs + TLC exhaustive (safety, deadlock, liveness); behaviour replay; TLC trace validation with inferred silent steps"),
+    "C13": dict(
+        category="model_checking", design_ref="DESIGN.md 5/C13",
+        text="LogSink.tla models producers logging on both streams of a logger whose sinks are guarded by an exclusive or a shared lock (a shared-mode append is two steps and loses concurrent "
+             "appends) and an optional ring buffer with drop accounting; TLC checks ExactlyOnceIntact / EveryMember / DropsAccounted / NoSilentLoss exhaustively for 3 producers x 2 messages "
+             "(the shared-lock configuration must violate). Every constructor of utils/logs is then driven in its own process of the -race harness by 2..32 producers sending checksummed "
+             "messages on both streams (with concurrent SetLogSource / Append in every second round); the sinks are parsed back and the counts, the reported drops and the race-detector "
+             "reports with utils/logs frames are judged by TLC (LogSinkTrace.tla).",
+        note="Trusted: TLC, the Go race detector as an observation (the Go memory model is not modelled), the harness's goroutine-safe sinks.",
+        technique="TLA+ sink/lock/ring specification + TLC exhaustive check; real loggers under the race detector; TLC trace judgement"),
     "C14": dict(
         category="model_checking", design_ref="DESIGN.md 5/C14",
         text="Retry.tla models the retry loop as coded (attempt / decide / select between delay and context); TLC checks bounded attempts, no attempt after "
